@@ -736,10 +736,13 @@ fn check_c05(ctx: &Ctx, ti: usize, r: &Ref, case: &Case) -> CaseResult {
         }
         Some(exp) => {
             res.nontrivial = true;
+            // one injected fault can make several range conditions fail at once (one element too many for the count
+            // field also overflows an enclosing payload size field): any error that applies is "the corresponding" one
+            let applicable: Vec<&'static str> = r.encode_all_errors(&t.name, v).iter().map(|e| e.rust_name()).collect();
             for (op, o) in [("encode_to_vec", &rep.to_vec), ("encode", &rep.into_vec)] {
                 match o {
                     Out::Ok(b) => res.fails.push(fail(op, format!("truncates:{}", exp.rust_name()), format!("wrote {} for an out-of-range value ({})", hex(b), case.label))),
-                    Out::Err { kind, .. } if kind != exp.rust_name() => res.fails.push(fail(op, format!("wrong-error-kind({}->{kind})", exp.rust_name()), case.label.clone())),
+                    Out::Err { kind, .. } if kind != exp.rust_name() && !applicable.contains(&kind.as_str()) => res.fails.push(fail(op, format!("wrong-error-kind({}->{kind})", exp.rust_name()), case.label.clone())),
                     _ => {}
                 }
             }
@@ -1248,6 +1251,11 @@ pub fn replay_case(ctx: &Ctx, ty: &str, input: &Input, label: &str, expect: Opti
     let t = &ctx.table.types[ti];
     let bd = &ctx.batch.descs[t.desc];
     let r = Ref::new(&bd.desc);
+    // a recorded value that the reference encoder refuses is an out-of-range case (C05): expect that error
+    let expect = expect.or_else(|| match input {
+        Input::Value(v) => r.encode(ty, v).err().filter(|e| !matches!(e, EncErr::BadValue(_))),
+        _ => None,
+    });
     let case = Case { input: input.clone(), label: label.to_string(), single_fault: label == "prefix" || label == "ext" || label.starts_with("fault:"), expect_err: expect };
     let res = check_case(ctx, ti, &r, &case);
     let mut all = type_tags(&r, ty);
